@@ -13,6 +13,7 @@ import (
 	"sort"
 	"strings"
 
+	"github.com/formancehq/go-libs/v5/pkg/types/metadata"
 	ledger "github.com/formancehq/ledger/internal"
 	"github.com/formancehq/ledger/internal/api/bulking"
 	ledgercontroller "github.com/formancehq/ledger/internal/controller/ledger"
@@ -23,8 +24,10 @@ import (
 // importx (TIE-D, properties C11 and C12): a random source history on ledger l1 (A), the real Export to bytes (what
 // v2.exportLogs does), then a script of actions on a fresh ledger l2 (B) of the same bucket and feature set, all through
 // the controller the real system controller hands out (state tracker facade, advisory locks, sequence resync):
-//   (import drop take now)            the real Import of export(A)[drop : drop+take] (decoded as v2.importLogs does)
-//   (write single|bulk|atomic now ops) ops one by one / one non-atomic bulk / one ATOMIC bulk through the real Bulker
+//
+//	(import drop take now)            the real Import of export(A)[drop : drop+take] (decoded as v2.importLogs does)
+//	(write single|bulk|atomic now ops) ops one by one / one non-atomic bulk / one ATOMIC bulk through the real Bulker
+//
 // The implementation line = outcome of every action (after an accepted import: which observable classes of B equal
 // those of A) + the final state of B; the model line is the same computed by Ledger/Import.v.
 // Monitors (independent of the model): C11 = a full import into the pristine copy succeeds, every observable class is
@@ -758,6 +761,58 @@ func (r *impRun) implSx() string {
 	return L("importx", L(r.Results...), r.Final.sx())
 }
 
+// ---------------------------------------------------------------- S-11b: chart default metadata of a metadata-only account
+// A fixed scenario outside Ledger/Core.v (which has no schemas), monitor only: strict mode, schema v1 whose chart gives
+// `users:$id` the default metadata role=user; SaveAccountMetadata under v1 creates users:42 {k1:v1} (stored with the default)
+// and users:7 {role:admin} (the request overrides the default); export -> import into a fresh ledger; the accounts of the
+// copy must carry the same metadata.
+const s11bCase = "(importx_s11b)"
+
+func runS11b() (msg string) {
+	defer func() {
+		if r := recover(); r != nil {
+			msg = fmt.Sprintf("chart default metadata scenario failed: %v [c11-s11b-scenario-broken]", r)
+		}
+	}()
+	st := NewStack(StackOpts{Mode: ledgercontroller.SchemaEnforcementStrict})
+	ctx := context.Background()
+	for _, l := range []string{"l1", "l2"} {
+		must(st.Sys.CreateLedger(ctx, l, ledger.Configuration{Bucket: "_default", Features: allOn.set()}))
+	}
+	src, err := st.Sys.GetLedgerController(ctx, "l1")
+	must(err)
+	var chart ledger.ChartOfAccounts
+	must(json.Unmarshal([]byte(`{"users": {"$id": {".pattern": "^[0-9]+$", ".metadata": {"role": {"default": "user"}}}}, "world": {}}`), &chart))
+	_, _, _, err = src.InsertSchema(ctx, ledgercontroller.Parameters[ledgercontroller.InsertSchema]{Input: ledgercontroller.InsertSchema{Version: "v1", Data: ledger.SchemaData{Chart: chart}}})
+	must(err)
+	for _, am := range []struct {
+		a string
+		m metadata.Metadata
+	}{{"users:42", metadata.Metadata{"k1": "v1"}}, {"users:7", metadata.Metadata{"role": "admin"}}} {
+		st.Tick(1000000)
+		_, _, err = src.SaveAccountMetadata(ctx, ledgercontroller.Parameters[ledgercontroller.SaveAccountMetadata]{SchemaVersion: "v1",
+			Input: ledgercontroller.SaveAccountMetadata{Address: am.a, Metadata: am.m}})
+		must(err)
+	}
+	s := &impStack{st: st, ctx: ctx, feat: allOn, a: src}
+	data, err := s.export()
+	must(err)
+	logs, err := decodeLogs(data)
+	must(err)
+	cp, err := st.Sys.GetLedgerController(ctx, "l2")
+	must(err)
+	st.Tick(3600 * 1000000)
+	if err := realImport(ctx, cp, logs); err != nil {
+		return "import of a ledger with a schema and metadata-only accounts failed: [c11-import-failed] " + importClass(err)
+	}
+	a, b := st.Snapshot(ctx, src, "l1", allOn), st.Snapshot(ctx, cp, "l2", allOn)
+	pa, pb := classProj(a)["account-metadata"], classProj(b)["account-metadata"]
+	if pa != pb {
+		return fmt.Sprintf("the copy lacks the chart default metadata of an account created by a metadata-only write: [c11-import-loses-default-metadata] source %s copy %s", pa, pb)
+	}
+	return ""
+}
+
 func cmdImportx(args []string) int {
 	f := ParseFlags(args)
 	out := NewOut(f.Out)
@@ -780,11 +835,26 @@ func cmdImportx(args []string) int {
 			out.Violation(v[:i], cs, v[i+1:])
 		}
 	}
+	s11b := func() {
+		out.Case(s11bCase, s11bCase)
+		out.Stats["cases"]++
+		out.Stats["s11b_scenario"]++
+		if msg := runS11b(); msg != "" {
+			out.Violation("C11", s11bCase, msg)
+		}
+	}
 	if f.Replay != "" {
 		for _, line := range ReadLines(f.Replay) {
+			if strings.HasPrefix(line, "(importx_s11b") {
+				s11b()
+				continue
+			}
 			finish(runImpCase(parseImpCase(line), nil))
 		}
 		return 0
+	}
+	if f.Extra["profile"] != "refs" {
+		s11b()
 	}
 	r := NewRng(f.Seed)
 	feats := []Feat{allOn, {true, true, false, false, false}, {false, false, true, true, true}, {true, false, true, false, false}}
